@@ -49,6 +49,17 @@ class Tok:
         return self.name
 
 
+class Opaque:
+    """a value the folder does not model (a newly built object, arithmetic on expressions): fine as something that
+    is stored or returned, an error as soon as a branch condition depends on it"""
+
+    def __repr__(self):
+        return "<opaque>"
+
+
+OPAQUE = Opaque()
+
+
 class Outcome:
     def __init__(self, kind, value=None, node=None):
         self.kind = kind  # "return" | "raise"
@@ -77,6 +88,10 @@ class Folder:
                 return self.env[n.id]
             if n.id in self.globals:
                 return self.globals[n.id]
+            # a module-level literal (mapping / tuple / constant) whose elements fold
+            vals = self.mod.assigns.get(n.id)
+            if vals and len(vals) == 1 and isinstance(vals[0], (ast.Dict, ast.Tuple, ast.List, ast.Constant, ast.Set)):
+                return self.ev(vals[0])
             self.fail(n, "unknown name")
         if isinstance(n, ast.Attribute):
             base = self.ev(n.value)
@@ -144,12 +159,36 @@ class Folder:
                     return base[k]
                 raise _Raised(Outcome("raise", "KeyError", n))
             self.fail(n, "subscript not modelled")
+        if isinstance(n, ast.Dict):
+            return {self.ev(k): self.ev(v) for k, v in zip(n.keys, n.values)}
         if isinstance(n, ast.Tuple):
             return tuple(self.ev(e) for e in n.elts)
         if isinstance(n, ast.List):
             return [self.ev(e) for e in n.elts]
         if isinstance(n, ast.Call):
             f = norm(n.func)
+            if f == "getattr" and len(n.args) in (2, 3) and isinstance(n.args[1], ast.Constant):
+                base = self.ev(n.args[0])
+                if isinstance(base, Rec):
+                    if n.args[1].value in base.attrs:
+                        return base.attrs[n.args[1].value]
+                    if len(n.args) == 3:
+                        return self.ev(n.args[2])
+                    self.fail(n, f"attribute {n.args[1].value} is not modelled")
+                if len(n.args) == 3:
+                    return self.ev(n.args[2])
+                self.fail(n, "getattr of a non-record")
+            if f == "isinstance" and len(n.args) == 2:
+                base = self.ev(n.args[0])
+                cls = norm(n.args[1])
+                if isinstance(base, Rec):
+                    return cls in base.attrs.get("__classes__", ())
+                return False if cls in ("Unit",) else self.fail(n, "isinstance not modelled")
+            if f == "len" and len(n.args) == 1:
+                v = self.ev(n.args[0])
+                if isinstance(v, (str, tuple, list, dict)):
+                    return len(v)
+                self.fail(n, "len of a non-sequence")
             if f in ("repr", "str") and len(n.args) == 1:
                 v = self.ev(n.args[0])
                 if isinstance(v, Rec):
@@ -178,6 +217,16 @@ class Folder:
             self.fail(n, "call not modelled")
         self.fail(n, "expression not modelled")
 
+    def ev_or_opaque(self, n):
+        """value positions (right-hand sides, returned values): what cannot be folded is opaque, not an error;
+        a refusal inside a followed helper still propagates"""
+        if isinstance(n, ast.Tuple):
+            return tuple(self.ev_or_opaque(e) for e in n.elts)
+        try:
+            return self.ev(n)
+        except AnalysisError:
+            return OPAQUE
+
     @staticmethod
     def _t(v):
         if isinstance(v, (Rec, Tok)):
@@ -185,7 +234,10 @@ class Folder:
         return bool(v)
 
     def truth(self, n):
-        return self._t(self.ev(n))
+        v = self.ev(n)
+        if isinstance(v, Opaque):
+            self.fail(n, "a branch condition depends on a value the analysis does not model")
+        return self._t(v)
 
     def run(self, body):
         for st in body:
@@ -197,10 +249,12 @@ class Folder:
                     return r
                 continue
             if isinstance(st, ast.Assign) and len(st.targets) == 1 and isinstance(st.targets[0], ast.Name):
-                self.env[st.targets[0].id] = self.ev(st.value)
+                self.env[st.targets[0].id] = self.ev_or_opaque(st.value)
+                continue
+            if isinstance(st, (ast.Import, ast.ImportFrom)):
                 continue
             if isinstance(st, ast.Return):
-                return Outcome("return", self.ev(st.value) if st.value is not None else None, st)
+                return Outcome("return", self.ev_or_opaque(st.value) if st.value is not None else None, st)
             if isinstance(st, ast.Raise):
                 e = st.exc.func if isinstance(st.exc, ast.Call) else st.exc
                 return Outcome("raise", norm(e) if e is not None else "?", st)
